@@ -1,5 +1,6 @@
 import CalVerif.Model.Password
 import CalVerif.Spec.PasswordSpec
+import CalVerif.Lemmas.Password
 /-! # C20 — encrypted workbooks are reported as password protected, and only those
 
     Theorems about the decision logic of the four password checks (`Model/Password.lean`):
@@ -48,17 +49,6 @@ theorem filepass_rc4_detected (arms : Arms) (pre post : List Rec) (info : Bytes)
     (hpre : ∀ p ∈ pre, p.typ ≠ EOF ∧ arms p = none) :
     xlsGlobals arms (pre ++ filepass 1 info :: post) = .password :=
   filepass_detected arms pre post _ _ hpre
-
-/-- the records the loop looks at: up to (excluding) the first EOF -/
-def beforeEof (recs : List Rec) : List Rec := recs.takeWhile (fun r => r.typ ≠ EOF)
-
-theorem eof_ne_filepass : EOF ≠ FILEPASS := by decide
-
-theorem beforeEof_cons_ne (p : Rec) (ps : List Rec) (h : p.typ ≠ EOF) : beforeEof (p :: ps) = p :: beforeEof ps := by
-  simp [beforeEof, List.takeWhile_cons, h]
-
-theorem beforeEof_cons_eq (p : Rec) (ps : List Rec) (h : p.typ = EOF) : beforeEof (p :: ps) = [] := by
-  simp [beforeEof, List.takeWhile_cons, h]
 
 /-- No FILEPASS before the first EOF ⇒ never `Password` (no other arm produces that error). -/
 theorem no_false_positive_xls (arms : Arms) (recs : List Rec)
@@ -110,63 +100,60 @@ theorem xls_pass_of_no_filepass (recs : List Rec) (hno : ∀ r ∈ beforeEof rec
       simp only [hF, hE, if_false, Arms.quiet]
       exact ih (fun r hr => hno r (by simp [hr]))
 
-/-! ## ods -/
+/-! ### the same on the bytes of the `Workbook` stream -/
 
-theorem inner_detects (mid post : List Ev) (hmid : ∀ e ∈ mid, e ≠ .error) :
-    inner (mid ++ .start encryptionData :: post) = .password := by
-  induction mid with
-  | nil => simp [inner]
-  | cons e es ih =>
-    have ih' := ih (fun x hx => hmid x (by simp [hx]))
-    cases e with
-    | start n => simp only [List.cons_append, inner]; split <;> simp_all
-    | other => simpa [inner] using ih'
-    | error => exact absurd rfl (hmid .error (by simp))
+/-- **FILEPASS is detected on the stream bytes.** The globals substream starts with the framing of any records
+    whose arms fall through and that are not EOF (BOF, WriteProtect, InterfaceHdr, CodePage …), then a FILEPASS
+    record with **any** payload (any `wEncryptionType`, any length below 2^16, even none), then **arbitrary
+    bytes** `tail` — the encrypted remainder of the file — subject only to not starting with a CONTINUE header
+    (which `RecordIter` would glue to the FILEPASS record). The loop returns `Password` without looking at `tail`. -/
+theorem filepass_detected_stream (arms : Arms) (pre : List Rec) (payload tail : Bytes) (fuel : Nat)
+    (hpre : ∀ p ∈ pre, Plain p ∧ p.typ ≠ EOF ∧ arms p = none)
+    (hpay : payload.length < 65536) (htail : NoContHead tail) (hfuel : pre.length + 1 < fuel) :
+    xlsGlobalsStream arms fuel (frameAll pre ++ frame1 FILEPASS payload ++ tail) = .password := by
+  have hfa : frameAll pre ++ frame1 FILEPASS payload = frameAll (pre ++ [⟨FILEPASS, payload, []⟩]) := by
+    simp [frameAll]
+  have hplain : ∀ r ∈ pre ++ [(⟨FILEPASS, payload, []⟩ : Rec)], Plain r := by
+    intro r hr
+    simp only [List.mem_append, List.mem_singleton] at hr
+    rcases hr with hr | rfl
+    · exact (hpre r hr).1
+    · exact ⟨by simp [FILEPASS], by simp [FILEPASS], hpay, rfl⟩
+  rw [hfa, stream_eq_records arms _ tail fuel hplain htail
+    (Or.inl ⟨⟨FILEPASS, payload, []⟩, by simp, Or.inr rfl⟩) (by simp; omega)]
+  exact filepass_detected arms pre [] payload [] (fun p hp => (hpre p hp).2)
+
+/-- **No false positive on the stream bytes**: a well-framed globals substream (plain records, terminated by an EOF
+    record or by the end of the stream) without a FILEPASS record before its first EOF is never `Password`. -/
+theorem no_false_positive_xls_stream (arms : Arms) (recs : List Rec) (tail : Bytes) (fuel : Nat)
+    (harms : ∀ r, arms r ≠ some .password)
+    (hplain : ∀ r ∈ recs, Plain r) (htail : NoContHead tail)
+    (hend : (∃ r ∈ recs, r.typ = EOF) ∨ tail = []) (hfuel : recs.length < fuel)
+    (hno : ∀ r ∈ beforeEof recs, r.typ ≠ FILEPASS) :
+    xlsGlobalsStream arms fuel (frameAll recs ++ tail) ≠ .password := by
+  rw [stream_eq_records arms recs tail fuel hplain htail
+    (hend.imp (fun ⟨r, hr, he⟩ => ⟨r, hr, Or.inl he⟩) id) hfuel]
+  exact no_false_positive_xls arms recs harms hno
+
+/-- the fuel the driver uses (`stream.length + 1`) is enough for every framing of plain records -/
+theorem stream_fuel_suffices (recs : List Rec) (tail : Bytes) :
+    recs.length < (frameAll recs ++ tail).length + 1 := by
+  induction recs with
+  | nil => simp [frameAll]
+  | cons r rs ih =>
+    rw [frameAll_cons]
+    simp only [List.length_append, List.length_cons, frame1, le16_length] at ih ⊢
+    omega
+
+/-! ## ods -/
 
 /-- A `manifest:file-entry` start tag followed — after any events: attributes' worth of nothing, other children,
     further entries — by a `manifest:encryption-data` start tag gives `Password`, whatever precedes the entry
     (any number of unencrypted entries, prolog, root element) and whatever follows. -/
 theorem manifest_detected (pre mid post : List Ev)
     (hpre : ∀ e ∈ pre, e ≠ .error) (hmid : ∀ e ∈ mid, e ≠ .error) :
-    odsManifest (pre ++ .start fileEntry :: (mid ++ .start encryptionData :: post)) = .password := by
-  unfold odsManifest
-  induction pre with
-  | nil => simp [outer, inner_detects mid post hmid]
-  | cons e es ih =>
-    have ih' := ih (fun x hx => hpre x (by simp [hx]))
-    cases e with
-    | start n =>
-      simp only [List.cons_append, outer]
-      split
-      · -- an earlier file-entry: the inner loop scans everything that follows
-        have : es ++ .start fileEntry :: (mid ++ .start encryptionData :: post)
-            = (es ++ .start fileEntry :: mid) ++ .start encryptionData :: post := by simp
-        rw [this]
-        apply inner_detects
-        intro x hx
-        simp only [List.mem_append, List.mem_cons] at hx
-        rcases hx with hx | hx | hx
-        · exact hpre x (by simp [hx])
-        · rw [hx]; simp
-        · exact hmid x hx
-      · exact ih'
-    | other => simpa [outer] using ih'
-    | error => exact absurd rfl (hpre .error (by simp))
-
-theorem inner_no_false_positive (evs : List Ev) (hno : Ev.start encryptionData ∉ evs) :
-    inner evs ≠ .password := by
-  induction evs with
-  | nil => simp [inner]
-  | cons e es ih =>
-    have ih' := ih (fun h => hno (by simp [h]))
-    cases e with
-    | start n =>
-      simp only [inner]
-      split
-      · rename_i h; exact absurd (by simp [h]) hno
-      · exact ih'
-    | other => simpa [inner] using ih'
-    | error => simp [inner]
+    odsManifest (pre ++ .start fileEntry :: (mid ++ .start encryptionData :: post)) = .password :=
+  outer_detects pre mid post hpre hmid
 
 /-- A manifest without any `manifest:encryption-data` start tag is never reported as password protected. -/
 theorem no_false_positive_ods (evs : List Ev) (hno : Ev.start encryptionData ∉ evs) :
@@ -230,144 +217,7 @@ theorem ods_password_iff (evs : List Ev) (herr : Ev.error ∉ evs) :
     · intro e he; rintro rfl; exact herr (by simp [he])
     · intro e he; rintro rfl; exact herr (by simp [he])
 
-theorem inner_pass (l : List Ev) (herr : Ev.error ∉ l) (hno : Ev.start encryptionData ∉ l) : inner l = .pass := by
-  induction l with
-  | nil => rfl
-  | cons e es ih =>
-    have ih' := ih (fun h => herr (by simp [h])) (fun h => hno (by simp [h]))
-    cases e with
-    | start n =>
-      simp only [inner]
-      split
-      · rename_i h; exact absurd (by simp [h]) hno
-      · exact ih'
-    | other => simpa [inner] using ih'
-    | error => exact absurd (by simp) herr
-
-theorem outer_pass (l : List Ev) (herr : Ev.error ∉ l) (hno : Ev.start encryptionData ∉ l) : outer l = .pass := by
-  induction l with
-  | nil => rfl
-  | cons e es ih =>
-    have herr' : Ev.error ∉ es := fun h => herr (by simp [h])
-    have hno' : Ev.start encryptionData ∉ es := fun h => hno (by simp [h])
-    cases e with
-    | start n =>
-      simp only [outer]
-      split
-      · exact inner_pass es herr' hno'
-      · exact ih herr' hno'
-    | other => simpa [outer] using ih herr' hno'
-    | error => exact absurd (by simp) herr
-
-theorem outer_replicate_other (k : Nat) (l : List Ev) : outer (List.replicate k .other ++ l) = outer l := by
-  induction k with
-  | zero => simp
-  | succ k ih => simp [List.replicate_succ, outer, ih]
-
 /-! ### logical manifest → events → outcome -/
-
-theorem error_not_mem_manifestEvents (m : Manifest) : Ev.error ∉ manifestEvents m := by
-  have hsub : ∀ subs, Ev.error ∉ subEvents subs := by
-    intro subs; simp [subEvents]
-  have hchild : ∀ c, Ev.error ∉ childEvents c := by
-    intro c; cases c <;> simp [childEvents, hsub]
-  have hentry : ∀ e, Ev.error ∉ entryEvents m.gap e := by
-    intro e
-    simp only [entryEvents, List.mem_cons, List.mem_append, List.mem_flatMap, List.mem_replicate, not_or]
-    refine ⟨by simp, ?_, by simp, by simp⟩
-    rintro ⟨c, _, hc⟩; exact hchild c hc
-  simp only [manifestEvents, List.mem_append, List.mem_cons, List.mem_flatMap, List.mem_replicate, not_or]
-  refine ⟨by simp, by simp, ?_, by simp⟩
-  rintro ⟨e, _, he⟩; exact hentry e he
-
-theorem enc_mem_childEvents (c : Child) : Ev.start encryptionData ∈ childEvents c ↔ c.isEnc = true := by
-  cases c with
-  | enc subs => simp [childEvents, Child.isEnc]
-  | elem q =>
-    simp only [childEvents, Child.isEnc, List.mem_cons, Ev.start.injEq, List.not_mem_nil, or_false, beq_iff_eq]
-    constructor
-    · rintro (h | h)
-      · exact h.symm
-      · cases h
-    · intro h; left; exact h.symm
-  | text => simp [childEvents, Child.isEnc]
-
-theorem enc_mem_entryEvents (gap : Nat) (e : Entry) :
-    Ev.start encryptionData ∈ entryEvents gap e ↔ e.encrypted = true := by
-  have hne : fileEntry ≠ encryptionData := by decide
-  simp only [entryEvents, List.mem_cons, Ev.start.injEq, List.mem_append, List.mem_flatMap,
-    List.mem_replicate, Entry.encrypted, List.any_eq_true]
-  constructor
-  · rintro (h | ⟨c, hc, hm⟩ | h | h)
-    · exact absurd h.symm hne
-    · exact ⟨c, hc, (enc_mem_childEvents c).1 hm⟩
-    · cases h
-    · cases h.2
-  · rintro ⟨c, hc, hm⟩
-    exact Or.inr (Or.inl ⟨c, hc, (enc_mem_childEvents c).2 hm⟩)
-
-theorem error_not_mem_entries (gap : Nat) (entries : List Entry) :
-    Ev.error ∉ entries.flatMap (entryEvents gap) ++ [Ev.other] := by
-  intro h
-  apply error_not_mem_manifestEvents ⟨0, "", entries, gap⟩
-  simp only [manifestEvents, List.mem_append, List.mem_cons]
-  exact Or.inr (Or.inr (by simpa using h))
-
-theorem manifest_spec_aux (prolog : Nat) (root : String) (entries : List Entry) (gap : Nat) :
-    outer (List.replicate prolog .other ++ .start root :: (entries.flatMap (entryEvents gap) ++ [.other]))
-      = if entries.any Entry.encrypted then .password else .pass := by
-  by_cases hd : entries.any Entry.encrypted = true
-  · simp only [hd, if_true]
-    -- split the entries at an encrypted one
-    simp only [List.any_eq_true] at hd
-    obtain ⟨e, he, henc⟩ := hd
-    obtain ⟨as, bs, rfl⟩ := List.append_of_mem he
-    have hev := (enc_mem_entryEvents gap e).2 henc
-    have hne : encryptionData ≠ fileEntry := by decide
-    have hev' : Ev.start encryptionData ∈ e.children.flatMap childEvents ++ .other :: List.replicate gap .other := by
-      simp only [entryEvents, List.mem_cons, Ev.start.injEq] at hev
-      rcases hev with h | hev
-      · exact absurd h hne
-      · exact hev
-    obtain ⟨mid, post, hsplit⟩ := List.append_of_mem hev'
-    have herr := error_not_mem_entries gap (as ++ e :: bs)
-    have hM : List.replicate prolog Ev.other ++ .start root :: ((as ++ e :: bs).flatMap (entryEvents gap) ++ [.other]) =
-        (List.replicate prolog .other ++ .start root :: as.flatMap (entryEvents gap)) ++
-          .start fileEntry :: (mid ++ .start encryptionData :: (post ++ (bs.flatMap (entryEvents gap) ++ [.other]))) := by
-      simp only [List.flatMap_append, List.flatMap_cons]
-      rw [show entryEvents gap e = .start fileEntry :: (mid ++ .start encryptionData :: post) by
-        rw [← hsplit]; rfl]
-      simp
-    have herr2 : Ev.error ∉ as.flatMap (entryEvents gap) ∧ Ev.error ∉ mid := by
-      simp only [List.flatMap_append, List.flatMap_cons] at herr
-      rw [show entryEvents gap e = .start fileEntry :: (mid ++ .start encryptionData :: post) by
-        rw [← hsplit]; rfl] at herr
-      constructor
-      · intro h; apply herr; simp [h]
-      · intro h; apply herr; simp [h]
-    rw [hM]
-    apply manifest_detected
-    · intro x hx; rintro rfl
-      simp only [List.mem_append, List.mem_cons, List.mem_replicate] at hx
-      rcases hx with h | h | h
-      · cases h.2
-      · cases h
-      · exact herr2.1 h
-    · intro x hx; rintro rfl; exact herr2.2 hx
-  · have hd' : entries.any Entry.encrypted = false := by simpa using hd
-    simp only [hd', Bool.false_eq_true, if_false]
-    have hrest_err := error_not_mem_entries gap entries
-    have hrest_no : Ev.start encryptionData ∉ entries.flatMap (entryEvents gap) ++ [Ev.other] := by
-      simp only [List.any_eq_false] at hd'
-      simp only [List.mem_append, List.mem_flatMap, List.mem_cons, List.not_mem_nil, or_false, not_or]
-      refine ⟨?_, by simp⟩
-      rintro ⟨e, he, hm⟩
-      exact hd' e he ((enc_mem_entryEvents gap e).1 hm)
-    rw [outer_replicate_other]
-    simp only [outer]
-    split
-    · exact inner_pass _ hrest_err hrest_no
-    · exact outer_pass _ hrest_err hrest_no
 
 /-- **ods, both directions at once**: on the event list of any logical manifest — any number of entries, the
     encryption data in any of them, any other children, any prolog/root/white space — the check answers
@@ -394,20 +244,6 @@ theorem ooxml_password_iff (file : Bytes) :
   | err e => simp
   | panic e => simp
   | outOfFuel => simp
-
-/-- `Header::from_reader` rejects everything that does not start with the OLE signature -/
-theorem header_err_of_not_signature (file : Bytes) (h : file.take 8 ≠ Cfb.signature) :
-    ∃ e, Cfb.Header.fromReader file = .err e := by
-  unfold Cfb.Header.fromReader
-  by_cases hl : file.length < 512
-  · exact ⟨"io", by simp [hl]⟩
-  · have h8 : (file.take 512).take 8 = file.take 8 := by simp [List.take_take]
-    exact ⟨"ole", by simp [hl, h8, h]⟩
-
-theorem new_err_of_not_signature (file : Bytes) (len : Nat) (h : file.take 8 ≠ Cfb.signature) :
-    ∃ e, Cfb.new file len = .err e := by
-  obtain ⟨e, he⟩ := header_err_of_not_signature file h
-  exact ⟨e, by unfold Cfb.new; rw [he]; rfl⟩
 
 /-- A file that does not start with the eight signature bytes `D0 CF 11 E0 A1 B1 1A E1` is never reported as
     password protected by the xlsx/xlsb check: it is handed to the zip reader. -/
@@ -444,10 +280,65 @@ theorem encrypted_package_detected_rel (hC13 : CfbNewOnLayouts)
   exact ⟨c, rd, hnew, hdir _ hmem⟩
 
 /-- the shape real producers write: ciphertext + `EncryptionInfo` (any variant = any bytes) + other streams -/
-theorem encrypted_package_detected_rel' (hC13 : CfbNewOnLayouts)
+theorem encrypted_streams_detected_rel (hC13 : CfbNewOnLayouts)
     (ct info : Bytes) (extra : List Cfb.Stream) (L : Cfb.Layout)
     (hv : Cfb.Valid (encryptedStreams ct info extra) L) :
     ooxmlCheck (Cfb.layoutCfb (encryptedStreams ct info extra) L) = .password :=
   encrypted_package_detected_rel hC13 _ L ct (by simp [encryptedStreams]) hv
+
+/-! ## non-vacuity: concrete instances meeting the hypotheses -/
+
+/-- BOF, WriteProtect, then FILEPASS of XOR type (key 0x1234, verifier 0xABCD), then six bytes of cipher text that do
+    not even frame as a record: the hypotheses of `filepass_detected_stream` hold and it yields `Password` -/
+example :
+    xlsGlobalsStream Arms.quiet 10
+      (frameAll [⟨0x0809, [0, 6, 5, 0], []⟩, ⟨0x0086, [], []⟩] ++ frame1 FILEPASS [0, 0, 0x34, 0x12, 0xCD, 0xAB]
+        ++ [0x42, 0, 9, 0, 0x99, 0x77]) = .password :=
+  filepass_detected_stream Arms.quiet _ _ _ 10 (by decide) (by decide) (by simp [NoContHead, Biff.u16]) (by decide)
+
+/-- the same workbook without the FILEPASS record (CodePage, then EOF) is let through -/
+example :
+    xlsGlobalsStream Arms.quiet 10
+      (frameAll [⟨0x0809, [0, 6, 5, 0], []⟩, ⟨0x0042, [0xB0, 4], []⟩, ⟨EOF, [], []⟩] ++ [9, 8, 7]) ≠ .password :=
+  no_false_positive_xls_stream Arms.quiet _ _ 10 (by simp [Arms.quiet]) (by decide) (by simp [NoContHead])
+    (Or.inl ⟨⟨EOF, [], []⟩, by simp, rfl⟩) (by decide) (by decide)
+
+/-- FILEPASS of RC4 type after three other records at the record level; an arm that fails *after* it is irrelevant -/
+example :
+    xlsGlobals (fun r => if r.typ = 0x00FC then some (.err "sst") else none)
+      ([⟨0x0809, [], []⟩, ⟨0x00E1, [0xB0, 4], []⟩, ⟨0x00C1, [0, 0], []⟩] ++ filepass 1 [1, 0, 1, 0] :: [⟨0x00FC, [], []⟩])
+      = .password :=
+  filepass_rc4_detected _ _ _ _ (by decide)
+
+/-- a manifest with three entries, the second one encrypted (and a decoy element in the first) -/
+def exManifest : Manifest :=
+  { prolog := 1, root := "manifest:manifest", gap := 1,
+    entries := [⟨[.elem "manifest:encryption-dat"]⟩,
+                ⟨[.text, .enc ["manifest:algorithm", "manifest:key-derivation"], .elem "loext:x"]⟩,
+                ⟨[]⟩] }
+
+example : odsManifest (manifestEvents exManifest) = .password := by rw [manifest_spec]; rfl
+example : odsManifest (manifestEvents { exManifest with entries := [⟨[.elem "manifest:encryption-dat"]⟩, ⟨[]⟩] }) = .pass := by
+  rw [manifest_spec]; rfl
+
+/-- a zip local-file header is never taken for an encrypted package -/
+example : ooxmlCheck [0x50, 0x4B, 3, 4, 20, 0, 0, 0, 8, 0] = .pass :=
+  zip_never_password _ 0x50 0x4B _ rfl ⟨rfl, rfl⟩
+
+/-- an encrypted package (8 bytes of cipher text, an agile `EncryptionInfo` header) in a valid version-3 layout:
+    the hypothesis `Valid` of `encrypted_package_detected_rel` is satisfiable, and on this instance the conclusion
+    holds outright (kernel evaluation of the model on the 2560 bytes of the file), without C13's theorem -/
+def exStreams : List Cfb.Stream := encryptedStreams [1, 2, 3, 4, 5, 6, 7, 8] [4, 0, 4, 0] []
+def exLayout : Cfb.Layout :=
+  { v4 := false
+    main := ⟨#[.fat 0, .data 0 0, .data 1 0, .data 2 0], #[#[1], #[2], #[3], #[], #[]]⟩
+    fatIds := #[0]
+    difIds := #[]
+    mini := ⟨#[.data 0 0, .data 1 0], #[#[0], #[1]]⟩
+    dirOrder := [some 1, none, some 0]
+    fill := 0 }
+
+example : Cfb.Valid exStreams exLayout := by decide +kernel
+example : ooxmlCheck (Cfb.layoutCfb exStreams exLayout) = .password := by decide +kernel
 
 end Password
